@@ -187,4 +187,30 @@ PROPS["C18"] = {
     "assumptions": ["I5"],
 }
 
+PROPS["C02"] = {
+    "extra_harness": ["TRACE"],
+    "level_text": "Theorems (Lean 4): client stream transition system (every label sequence): what successive RecvMsg calls return is exactly the bodies of the incoming envelopes in order up to the first terminal envelope (cs_recv_sequence, cs_eof_complete); RecvMsg returns io.EOF iff the first terminal envelope is an OK trailer that is not a reset (cs_eof_iff_ok_trailer and its one-directional forms); with the re-check in the ctx.Done branch no RecvMsg ever returns the context error unless the caller's context ended - whatever the interleaving of the finishing block with the done-check and the select (cs_never_canceled_after_trailer), and the 'rCh closed but not done' panic is unreachable (cs_no_closed_rch_panic); negative witness cs_window_bug. Composition (Props/C02): for EVERY handler program, feeding what the server's stream object emits into the client's receive path delivers exactly the payloads of the handler's successful SendMsg calls, in order, and ends in io.EOF iff the handler's status is OK (s2c_stream_exact); the handler's RecvMsg sees exactly the caller's messages and then io.EOF after the half-close, and no EOF before it (c2s_stream_exact, c2s_no_premature_eof). Tied to /repo by 5 flags, rCh being unbuffered, the stream skeletons, the serverStream lock-steps (ssrun, ssrecv), the Mux trace replay, and scenarios on the real code: 3 kinds x handler programs x client programs x message counts with the streamSeq monitor on 1-8 (32) concurrent streams, the FORCED WINDOW (RecvMsg held after its done-check until the finishing block has completed; 64 / 1024 repetitions per variant) and randomised yields.",
+    "level_note": "Trusted: Lean kernel; extractor; harness. Residual found by the model and not claimed: a SendMsg that fails in the transport after the OK trailer was processed tears the stream down and can still make a concurrent RecvMsg report Canceled (ClientStream.send_teardown_window); a trailer envelope that also carries a body has its body dropped by the client (GOAT's server never emits one).",
+    "technique": "Lean 4 proof (inductive invariants over the client-stream LTS; composition by induction over handler programs) + flags/skeletons + forced schedule through yield hooks on the real code",
+    "props": ["Goat.ClientStreamThms", "Goat.Props.C02"],
+    "tie": ["Goat.Tie.C02"],
+    "theorems": ["cs_recv_sequence", "cs_eof_complete", "cs_eof_only_after_ok_trailer", "cs_ok_trailer_gives_eof", "cs_eof_iff_ok_trailer", "cs_never_canceled_after_trailer",
+                 "cs_no_closed_rch_panic", "cs_window_bug", "cs_terminal_result_is_verdict", "send_teardown_window", "recv_never_nil_without_message", "terminal_sticky", "done_sticky"],
+    "rule": "one case = one stream of the product (kind, handler program, client program, count, transport kind, batch), one forced-window iteration, or one yield-randomised stream; non-trivial = at least one message or a non-OK end",
+    "modelled_not_verified": COMMON_MNV,
+    "assumptions": [],
+}
+PROPS["C07"] = {
+    "level_text": "Theorems (Lean 4, client stream transition system, every label sequence): after the caller's context ends a RecvMsg in progress always has an enabled completion (mutex free: the ctx branch; mutex held: the finishing block's next step, which strictly increases a rank and leaves the receiver untouched) and a completing continuation of bounded length exists (cancel_fails_recv, cancel_fails_recv_path); every RecvMsg result is an offered message, the context status, or the stored terminal status (recv_results_classified); terminal results are sticky (terminal_sticky, done_sticky); at most one reset is ever written for the id, exactly one - and it is the last thing the read-loop side writes, before unregistering - when the context ended before a terminal envelope was processed, none after a trailer (at_most_one_reset, cancel_sends_one_reset, cancel_before_terminal_sends_one_reset, no_reset_after_trailer, finishing_block_once, no_output_after_unregister). Server: a reset for a registered stream cancels that handler's context in the same step and the read loop goes straight back to reading; that step is enabled whenever the lock is free (Props/C07 reset_cancels_handler, reset_step_enabled). Tied to /repo by flags (finishing order, teardown without reset on a failed send, closed registration reports the context error), skeletons, and scenarios on the real code: cancellation at every position of the caller's program x {immediate, settled with m responses queued unread, completed, race}, explicit cancel and deadline, with/without 4 other calls, and the forced cancel-during-SendMsg schedules (held at the yield point / parked in a blocked transport write).",
+    "level_note": "Trusted: Lean kernel; extractor; harness. I2: a receive issued after the cancellation may return an already delivered message. Tolerated and counted, not claimed: when the cancellation races with the stream's own completion (trailer read but not yet recorded) a RecvMsg may report Canceled and the next one io.EOF.",
+    "technique": "Lean 4 proof (inductive invariants, rank-based progress over the client-stream LTS) + flags/skeletons + cancellation placed at every position and forced schedules on the real code",
+    "props": ["Goat.ClientStreamThms", "Goat.Props.C07"],
+    "tie": ["Goat.Tie.C07"],
+    "theorems": ["cancel_fails_recv", "cancel_fails_recv_path", "recv_results_classified", "terminal_sticky", "done_sticky", "at_most_one_reset", "cancel_sends_one_reset",
+                 "cancel_before_terminal_sends_one_reset", "no_reset_after_trailer", "finishing_block_once", "no_output_after_unregister"],
+    "rule": "one case = one (shape, position, mode, cause, options) cancellation run or one forced send-window run; non-trivial = every case",
+    "modelled_not_verified": COMMON_MNV,
+    "assumptions": ["I2"],
+}
+
 NOT_YET = {}
